@@ -21,7 +21,10 @@ txt = ["### 11.6 Behaviour-preserving changes (false-alarm test)", "",
        "now that the translator looks through a wrapping call). This test exposed a real flaw, now fixed: the translators of C02, C03, C04 and",
        "C15 used to go on with empty tables when they could not find one, and the comparison then reported thousands of bogus \"failing",
        "inputs\"; a missing table now stops the run as a harness failure (violation without failing input), and `check` no longer crashes when a",
-       "regenerated file is missing.", "",
+       "regenerated file is missing.",
+       "After the repairs and the five strengthening rounds most of these patches no longer apply textually (the lines were",
+       "rewritten); `tools/harmless_regress.py` re-runs those that do against the final heads: 19 of 60 at the end of the third",
+       "session, all 19 silent - the models and generators added in round five raised no alarm on any of them.", "",
        "| patch | refactoring | outcome of the check when written | on the final heads |", "|---|---|---|---|"]
 for r in rows:
     txt.append("| %s | %s | %s | %s |" % r)
